@@ -524,6 +524,23 @@ def txt(ctx: Any) -> List[Ob]:
     obs.append(ob(R, r, parts[0] if parts else 'partition', 'reader splits each item at the first `=`', len(parts) == 1 and parts[0].args[0].value == b'=' and call_name(parts[0]) == 'partition'))
     first = [n for n in walk_local_ordered(r.node) if isinstance(n, ast.If) and isinstance(n.test, ast.Compare) and isinstance(n.test.ops[0], ast.NotIn) and any(isinstance(s, ast.Assign) and isinstance(s.targets[0], ast.Subscript) for s in n.body)]
     obs.append(ob(R, r, first[0].test if first else 'if key not in properties', 'the first occurrence of a key wins', len(first) == 1))
+    # ... of THAT key, byte for byte: the membership test is made with the very key the entry is stored under, against the very
+    # dictionary it is stored in (a test on a folded or otherwise normalised copy of the key drops `model` after `Model`, which
+    # an RFC 6763 section 6 parser of the same bytes keeps as two keys), and the key is the bytes before the first `=`, untouched
+    if len(first) == 1:
+        from .common import local_defs as _ld
+
+        stt = [s_ for s_ in first[0].body if isinstance(s_, ast.Assign) and isinstance(s_.targets[0], ast.Subscript)]
+        tst = first[0].test
+        same = len(stt) == 1 and norm(tst.left) == norm(stt[0].targets[0].slice) and norm(tst.comparators[0]) == norm(stt[0].targets[0].value)
+        kname = stt[0].targets[0].slice if stt else None
+        raw = False
+        if isinstance(kname, ast.Name):
+            defs_k = _ld(r).get(kname.id, [])
+            raw = bool(defs_k) and all(d is None or (isinstance(d, ast.Subscript) and not any(isinstance(x, ast.Call) and call_name(x) not in ('partition', 'split') for x in ast.walk(d))) for d in defs_k)
+        elif isinstance(kname, ast.Subscript):
+            raw = not any(isinstance(x, ast.Call) and call_name(x) not in ('partition', 'split') for x in ast.walk(kname))
+        obs.append(ob(R, r, tst, 'the test for an earlier occurrence uses the key as stored (same bytes, same dictionary); the key is the item up to its first `=`, unchanged', same and raw, ('' if same else f'tested `{norm(tst.left)} not in {norm(tst.comparators[0])}`, stored under `{norm(stt[0].targets[0]) if stt else "?"}`') + ('' if raw else '; the key is transformed before it is stored')))
     la = LenAnalysis(ctx, r)
     whiles = [n for n in walk_local_ordered(r.node) if isinstance(n, ast.While)]
     if len(whiles) != 1:
